@@ -228,7 +228,7 @@ def run_kani_group(prop_id, tier, target, modules, harnesses, support=(), elide_
     import random
     random.Random(seed_from_env()).shuffle(hs)
     if harness_timeout is None:
-        harness_timeout = 150 if tier == "quick" else 1200
+        harness_timeout = 900 if tier == "quick" else 2400  # generous: a time-out on the unchanged tree would make the check exit 2
     obls = []
 
     def prepare_overlay(o, copy_harness=False):
